@@ -620,6 +620,21 @@ def sym_exec(stmts, env=None):
     return env
 
 
+def _bind_walrus(cond, env):
+    """`(x := E) < 0` as a path condition: bind x to E (already substituted) in `env`, return the condition with the
+    assignment expression replaced by its value."""
+    import copy
+
+    class W(ast.NodeTransformer):
+        def visit_NamedExpr(self, n):
+            v = self.visit(n.value)
+            if isinstance(n.target, ast.Name):
+                env[n.target.id] = copy.deepcopy(v)
+            return v
+
+    return W().visit(cond)
+
+
 def returned_exprs(fi, max_paths=64):
     """Every expression a loop-free function can return, as an expression over its parameters / attributes: for each
     path to a `return`, the assignments to plain names on the path are substituted (straight-line symbolic
@@ -650,7 +665,7 @@ def returned_exprs(fi, max_paths=64):
             node = cfg.nodes[nid]
             st = node.ast
             if node.kind == "cond" and st is not None:
-                conds.append((S().visit(copy.deepcopy(st)), lab))
+                conds.append((_bind_walrus(S().visit(copy.deepcopy(st)), env), lab))
             elif node.kind == "stmt" and isinstance(st, (ast.Assign, ast.AnnAssign)) and getattr(st, "value", None) is not None:
                 tg = st.targets[0] if isinstance(st, ast.Assign) else st.target
                 if isinstance(tg, ast.Name) and (not isinstance(st, ast.Assign) or len(st.targets) == 1):
@@ -744,7 +759,7 @@ def path_states(fi, max_paths=64, track_attrs=True):
             node = cfg.nodes[nid]
             st = node.ast
             if node.kind == "cond" and st is not None:
-                conds.append((S().visit(copy.deepcopy(st)), lab))
+                conds.append((_bind_walrus(S().visit(copy.deepcopy(st)), env), lab))
             elif node.kind == "stmt" and isinstance(st, (ast.Assign, ast.AnnAssign)) and getattr(st, "value", None) is not None:
                 tgs = st.targets if isinstance(st, ast.Assign) else [st.target]
                 if len(tgs) == 1 and key(tgs[0]) is not None:
